@@ -377,6 +377,8 @@ def rule_providers(ctx: Ctx):
 
     c12.rule_samepath(ctx, rule="C02.providers")
     c12.rule_filter(ctx, rule="C02.providers")
+    # ... each provider offering everything `dir()` of the object lists, under its own identity
+    c12.rule_provider_attrs(ctx, rule="C02.providers", attrs_rule="C02.providers")
 
 
 def _const_prefix(t: ast.AST):
@@ -657,4 +659,12 @@ def rule_own_event_view(ctx: Ctx):
     c07.rule_layer(ctx, rule="C02.view")
 
 
-RULES = [rule_own_event_view, rule_order, rule_view, rule_plumbing, rule_keys, rule_support, rule_scope, rule_initial, rule_once, rule_providers, rule_awaited_once]
+def rule_called_each_time(ctx: Ctx):
+    """C02.once: every applicable callback is *called* (exactly once per executed transition): what the executor stores is
+    the built callable itself, not a memo that answers for it."""
+    from . import c01
+
+    c01.rule_stored_callable(ctx, rule="C02.once")
+
+
+RULES = [rule_own_event_view, rule_order, rule_view, rule_plumbing, rule_keys, rule_support, rule_scope, rule_initial, rule_once, rule_providers, rule_awaited_once, rule_called_each_time]
